@@ -17,20 +17,18 @@ Variable iter_o : itag -> op -> fm.
 Notation inv := (inv gmres_amb lu_o chol_o).
 Notation base := (base lu_o chol_o).
 Notation to_op := (to_op tinv_o iter_o).
-Notation ok := (ok lu_o chol_o).
+Notation ok := (ok lu_o chol_o iter_o).
 Notation tinv_ok := (tinv_ok tinv_o).
 Notation solve := (solve gmres_amb lu_o chol_o tinv_o iter_o).
 Notation lsolve := (lsolve gmres_amb lu_o chol_o tinv_o iter_o).
 
-(* the call selected a direct (non-iterative) path everywhere in the tree *)
-Definition is_direct (al : alg) (e : op) (a : atree) : Prop := exists r, inv al e a = IOk r /\ direct r = true.
 
 (* inv(A, alg) @ b and solve(A, b, alg) solve A x = b *)
-Theorem solve_correct : tinv_ok -> forall al e a (X Y : arr), wf e = true -> is_sq e = true -> ok al e a -> is_direct al e a ->
+Theorem solve_correct : tinv_ok -> forall al e a (X Y : arr), wf e = true -> is_sq e = true -> ok al e a ->
   nr X = fst (shape e) -> solve al e a X = Some Y ->
   nr Y = fst (shape e) /\ nc Y = nc X /\ feq (fst (shape e)) (nc X) (mmul (fst (shape e)) (den e) (dat Y)) (dat X).
-Proof. intros TO al e a X Y W Sq OK (r & E & D) HX H. unfold C06_Inv.solve in H. rewrite E in H. inversion H; subst Y; clear H.
-  destruct (inv_den gmres_amb lu_o chol_o tinv_o iter_o TO e al a r W Sq OK E D) as (Wr & Sr & I).
+Proof. intros TO al e a X Y W Sq OK HX H. unfold C06_Inv.solve in H. destruct (inv al e a) as [r|] eqn:E; [|discriminate]. inversion H; subst Y; clear H.
+  destruct (inv_den gmres_amb lu_o chol_o tinv_o iter_o TO e al a r W Sq OK E) as (Wr & Sr & I).
   pose proof (sq_shape e Sq) as Sh. set (n := fst (shape e)) in *.
   destruct (proj1 (mm_den (to_op r) Wr) X) as (E1 & E2 & E3); [rewrite Sr, Sh; exact HX|].
   cbn [spec nr nc dat] in E1, E2, E3. rewrite Sr, Sh in E1, E3. cbn [fst snd] in E1, E3.
@@ -41,11 +39,11 @@ Proof. intros TO al e a X Y W Sq OK (r & E & D) HX H. unfold C06_Inv.solve in H.
     apply (mmul_ext n n (nc X)); auto using feq_refl. apply (proj2 I). Qed.
 
 (* b @ inv(A, alg) is b A^-1 *)
-Theorem inv_left_product : tinv_ok -> forall al e a (X Y : arr), wf e = true -> is_sq e = true -> ok al e a -> is_direct al e a ->
+Theorem inv_left_product : tinv_ok -> forall al e a (X Y : arr), wf e = true -> is_sq e = true -> ok al e a ->
   nc X = fst (shape e) -> lsolve al e a X = Some Y ->
   nr Y = nr X /\ nc Y = fst (shape e) /\ feq (nr X) (fst (shape e)) (mmul (fst (shape e)) (dat Y) (den e)) (dat X).
-Proof. intros TO al e a X Y W Sq OK (r & E & D) HX H. unfold C06_Inv.lsolve in H. rewrite E in H. inversion H; subst Y; clear H.
-  destruct (inv_den gmres_amb lu_o chol_o tinv_o iter_o TO e al a r W Sq OK E D) as (Wr & Sr & I).
+Proof. intros TO al e a X Y W Sq OK HX H. unfold C06_Inv.lsolve in H. destruct (inv al e a) as [r|] eqn:E; [|discriminate]. inversion H; subst Y; clear H.
+  destruct (inv_den gmres_amb lu_o chol_o tinv_o iter_o TO e al a r W Sq OK E) as (Wr & Sr & I).
   pose proof (sq_shape e Sq) as Sh. set (n := fst (shape e)) in *.
   destruct (proj2 (mm_den (to_op r) Wr) X) as (E1 & E2 & E3); [rewrite Sr, Sh; exact HX|].
   cbn [rspec nr nc dat] in E1, E2, E3. rewrite Sr, Sh in E2, E3. cbn [fst snd] in E2, E3.
@@ -56,12 +54,12 @@ Proof. intros TO al e a X Y W Sq OK (r & E & D) HX H. unfold C06_Inv.lsolve in H
     apply (mmul_ext (nr X) n n); auto using feq_refl. apply (proj1 I). Qed.
 
 (* inv(A, alg).T is the inverse of A^T *)
-Theorem inv_transpose : tinv_ok -> forall al e a r sa, wf e = true -> is_sq e = true -> ok al e a -> inv al e a = IOk r -> direct r = true ->
+Theorem inv_transpose : tinv_ok -> forall al e a r sa, wf e = true -> is_sq e = true -> ok al e a -> inv al e a = IOk r ->
   (sa = true -> symmetric (to_op r)) ->
   let t := transpose sa (to_op r) in
   wf t = true /\ shape t = shape e /\ inv2 (fst (shape e)) (den t) (fun i j => den e j i).
-Proof. intros TO al e a r sa W Sq OK E D HS t.
-  destruct (inv_den gmres_amb lu_o chol_o tinv_o iter_o TO e al a r W Sq OK E D) as (Wr & Sr & I).
+Proof. intros TO al e a r sa W Sq OK E HS t.
+  destruct (inv_den gmres_amb lu_o chol_o tinv_o iter_o TO e al a r W Sq OK E) as (Wr & Sr & I).
   destruct (transpose_sound sa (to_op r) Wr HS) as (Wt & St & Dt). pose proof (sq_shape e Sq) as Sh.
   split; [exact Wt|]. split; [unfold t; rewrite St, Sr, Sh; reflexivity|].
   rewrite Sr, Sh in Dt. cbn [fst snd] in Dt. eapply inv2_ext; [apply feq_sym; exact Dt|apply feq_refl|]. apply inv2_transpose. exact I. Qed.
@@ -116,8 +114,8 @@ Definition ex_tree : op (R:=qi) :=
   Kron [Diag 2 (qof_vec [qic 2 1 0 1; qic 0 1 1 1]); Prod [Scal (qic 3 1 0 1) 2; Perm 2 (fun i => match i with 0 => 1 | _ => 0 end)%nat]].
 Lemma qi_nz (x : qi) : qi_eqb x qi0 = false -> x <> r0.
 Proof. intros H E. subst x. vm_compute in H. discriminate. Qed.
-Lemma ex_ok : forall lu_o chol_o, wf ex_tree = true /\ is_sq ex_tree = true /\ ok lu_o chol_o AAuto ex_tree adef.
-Proof. intros lu ch. split; [vm_compute; reflexivity|]. split; [vm_compute; reflexivity|].
+Lemma ex_ok : forall lu_o chol_o iter_o, wf ex_tree = true /\ is_sq ex_tree = true /\ ok lu_o chol_o iter_o AAuto ex_tree adef.
+Proof. intros lu ch it. split; [vm_compute; reflexivity|]. split; [vm_compute; reflexivity|].
   cbn [ok ex_tree akids adef map zipapp]. split; [vm_compute; reflexivity|].
   constructor.
   - intros i Hi. apply qi_nz. destruct i as [|[|i]]; [vm_compute; reflexivity|vm_compute; reflexivity|lia].
